@@ -4,6 +4,7 @@ vacuity witnesses, collect evidence."""
 import time
 import json
 import os
+import sys
 import subprocess
 import tempfile
 import z3
@@ -104,6 +105,9 @@ def model_value(model, t):
     return str(v)
 
 
+PROGRESS = os.environ.get('VERIF_PROGRESS', '') != ''
+
+
 def run_obligation(ctx, ob, cfg):
     """explore all paths of the obligation; returns ObResult"""
     res = ObResult(ob)
@@ -128,6 +132,9 @@ def run_obligation(ctx, ob, cfg):
         budget_s = cfg.get('ob_time_s', 900 if cfg.get('tier') == 'quick' else 10800)
         for p, outcome, payload in ex.run(body, max_paths=getattr(ob, 'max_paths', 5000)):
             res.paths += 1
+            if PROGRESS and res.paths % 500 == 0:
+                sys.stderr.write('    .. %s: %d paths, %.0f s\n' % (ob.id, res.paths, time.time() - t0))
+                sys.stderr.flush()
             if time.time() - t0 > budget_s:
                 res.inconclusive.append('time budget of %d s exceeded after %d paths' % (budget_s, res.paths))
                 break
